@@ -401,8 +401,11 @@ func (s *Solver) GetModel(pc []*Term, goal *Term) *Model {
 		av := get(t.Args)
 		rv := get([]*Term{t})
 		var sb strings.Builder
-		for _, a := range av {
-			fmt.Fprintf(&sb, "%x,", a)
+		for i, a := range av {
+			if i > 0 {
+				sb.WriteByte(',')
+			}
+			fmt.Fprintf(&sb, "%d", a)
 		}
 		if m.UFs[t.Name] == nil {
 			m.UFs[t.Name] = map[string]uint64{}
